@@ -92,7 +92,11 @@ type setup struct {
 	second     string // non-empty: a second mount (StaticDir or StaticFiles) of root2 under this prefix
 	cacheCap   int    // > 0: route caching with this capacity
 	globalFile bool   // a global path var named "file" is registered (SetGlobalVar) - the handlers' own regex must win
+	group      string // non-empty: the mount is registered inside Group(group, ...)
 }
+
+// full is the URL prefix the mount answers under.
+func (s setup) full() string { return s.group + s.prefix }
 
 // relRoot is the root relative to the working directory; decoys with secret markers sit where a sloppy resolution of
 // that relative path would end up (leading "../" dropped, or only its last element kept).
@@ -135,7 +139,7 @@ func buildRelative() {
 var decoys []string
 
 func (s setup) String() string {
-	return fmt.Sprintf("%s(prefix=%q exts=%q relativeRoot=%v) UseEncodedPath=%v secondMount=%q cache=%d globalVar(file)=%v", s.kind, s.prefix, s.exts, s.relative, s.encoded, s.second, s.cacheCap, s.globalFile)
+	return fmt.Sprintf("%s(prefix=%q exts=%q relativeRoot=%v) UseEncodedPath=%v secondMount=%q cache=%d globalVar(file)=%v group=%q", s.kind, s.prefix, s.exts, s.relative, s.encoded, s.second, s.cacheCap, s.globalFile, s.group)
 }
 
 func (s setup) router() *rux.Router {
@@ -158,15 +162,22 @@ func (s setup) router() *rux.Router {
 	if s.relative && relRoot != "" {
 		dir = relRoot
 	}
-	switch s.kind {
-	case "StaticDir":
-		r.StaticDir(s.prefix, dir)
-	case "StaticFS":
-		r.StaticFS(s.prefix, http.Dir(dir))
-	case "StaticFiles":
-		r.StaticFiles(s.prefix, dir, s.exts)
-	case "StaticFile":
-		r.StaticFile(s.prefix, dir+"/a.css")
+	mount := func() {
+		switch s.kind {
+		case "StaticDir":
+			r.StaticDir(s.prefix, dir)
+		case "StaticFS":
+			r.StaticFS(s.prefix, http.Dir(dir))
+		case "StaticFiles":
+			r.StaticFiles(s.prefix, dir, s.exts)
+		case "StaticFile":
+			r.StaticFile(s.prefix, dir+"/a.css")
+		}
+	}
+	if s.group != "" {
+		r.Group(s.group, mount)
+	} else {
+		mount()
 	}
 	return r
 }
@@ -227,7 +238,7 @@ func check(s setup, u *url.URL, rec *httptest.ResponseRecorder) string {
 		used = u.EscapedPath()
 	}
 	norm := model.Normalize(used, false)
-	if !strings.HasPrefix(norm, s.prefix+"/") {
+	if !strings.HasPrefix(norm, s.full()+"/") {
 		return fmt.Sprintf("request %q outside the prefix served file %q", norm, f)
 	}
 	if s.kind == "StaticFiles" {
@@ -251,14 +262,14 @@ func check(s setup, u *url.URL, rec *httptest.ResponseRecorder) string {
 		}
 	}
 	// which path does the file server see? StaticDir/StaticFS: URL.Path minus prefix; StaticFiles: the matched tail
-	rel := strings.TrimPrefix(u.Path, s.prefix)
+	rel := strings.TrimPrefix(u.Path, s.full())
 	if s.kind == "StaticFiles" {
-		rel = strings.TrimPrefix(norm, s.prefix+"/")
+		rel = strings.TrimPrefix(norm, s.full()+"/")
 	}
 	want := strings.TrimPrefix(path.Clean("/"+rel), "/")
 	if f != want && f != path.Join(want, "index.html") {
 		// decoded and escaped views may differ; accept the other view as well before complaining
-		alt := strings.TrimPrefix(path.Clean("/"+strings.TrimPrefix(model.Normalize(u.Path, false), s.prefix)), "/")
+		alt := strings.TrimPrefix(path.Clean("/"+strings.TrimPrefix(model.Normalize(u.Path, false), s.full())), "/")
 		if f != alt && f != path.Join(alt, "index.html") {
 			return fmt.Sprintf("request %q (clean %q) served the bytes of %q", used, want, f)
 		}
@@ -283,6 +294,11 @@ func prop(t *rapid.T) {
 	}
 	if s.kind == "StaticFile" {
 		s.prefix += "/one.css"
+	}
+	if rapid.IntRange(0, 3).Draw(t, "insideGroup") == 0 {
+		// the mount is registered inside a route group: the same containment applies below the group's prefix
+		s.group = rapid.SampledFrom([]string{"/admin", "/g/x"}).Draw(t, "group")
+		ev.Class("mount-inside-a-group")
 	}
 	if rapid.IntRange(0, 2).Draw(t, "secondMount") == 0 {
 		s.second = rapid.SampledFrom([]string{"/pub", "/pubfiles"}).Draw(t, "secondPrefix")
@@ -320,20 +336,20 @@ func prop(t *rapid.T) {
 			tail = start + strings.Repeat(dd+sep, k) + strings.ReplaceAll(target, "/", sep)
 			ev.Class("request:climb-with-encoded-dot-dot-or-separator")
 		}
-		pfx := s.prefix
+		pfx := s.full()
 		if rapid.IntRange(0, 9).Draw(t, "otherPrefix") == 0 {
 			pfx = rapid.SampledFrom([]string{"", "/assets/..", "/other"}).Draw(t, "pfx")
 		}
 		raw := pfx + "/" + tail
 		if s.kind == "StaticFile" && rapid.Bool().Draw(t, "exact") {
-			raw = s.prefix
+			raw = s.full()
 		}
 		if s.second != "" {
 			switch rapid.IntRange(0, 3).Draw(t, "mountChoice") {
 			case 0: // a file of the second mount
 				raw = s.second + "/" + rapid.SampledFrom([]string{"a.css", "b.js", "f1.txt", "sub/c.css", "only2.js", "../root/a.css"}).Draw(t, "file2")
 			case 1: // a plain file of the first mount
-				raw = s.prefix + "/" + rapid.SampledFrom([]string{"a.css", "b.js", "sub/c.css", "page.html"}).Draw(t, "file1")
+				raw = s.full() + "/" + rapid.SampledFrom([]string{"a.css", "b.js", "sub/c.css", "page.html"}).Draw(t, "file1")
 			case 2: // again an earlier path (the cache may answer)
 				if len(earlier) > 0 {
 					raw = rapid.SampledFrom(earlier).Draw(t, "again")
@@ -371,7 +387,7 @@ func prop(t *rapid.T) {
 			t.Fatalf("%s: %s", msg, ctx)
 		}
 		// classification: would a naive join leave the root and hit an existing file?
-		naive := filepath.Join(root, filepath.FromSlash(strings.TrimPrefix(u.Path, s.prefix)))
+		naive := filepath.Join(root, filepath.FromSlash(strings.TrimPrefix(u.Path, s.full())))
 		if !strings.HasPrefix(naive, root+string(filepath.Separator)) && naive != root {
 			if st, err := os.Stat(naive); err == nil && !st.IsDir() {
 				ev.Class("naive-join-would-escape-to-an-existing-file")
